@@ -127,10 +127,16 @@ Definition targets_of (e : env) (c : cst) : M (list string) :=
 
 (* signature() inside visitFunction *)
 Fixpoint underscores (n : nat) : string := match n with 0 => "" | S k => String "_"%char (underscores k) end.
+(* re.sub(r'\W', '_', name): names are ASCII here (lexer), so \W is everything but letters, digits and '_' *)
+Definition word_char (c : ascii) : bool :=
+  let n := nat_of_ascii c in
+  (Nat.leb 48 n && Nat.leb n 57) || (Nat.leb 65 n && Nat.leb n 90) || (Nat.leb 97 n && Nat.leb n 122) || Nat.eqb n 95.
+Fixpoint sanitize (s : string) : string :=
+  match s with EmptyString => EmptyString | String c r => String (if word_char c then c else "_"%char) (sanitize r) end.
 Fixpoint signature (fuel : nat) (t : tref) (depth : nat) : string :=
   match fuel with
-  | 0 => tref_name t
-  | S f => join (underscores depth) (tref_name t :: map (fun p => signature f p (S depth)) (tref_params t))
+  | 0 => sanitize (tref_name t)
+  | S f => join (underscores depth) (sanitize (tref_name t) :: map (fun p => signature f p (S depth)) (tref_params t))
   end.
 
 Fixpoint dependencies (fuel : nat) (ts : list tref) : list string :=
@@ -196,7 +202,7 @@ Section Visit.
                      end in
     let name := join "_" (["function"] ++ targets ++ map (fun p => signature DEPTH (param_ty p) 2) params ++
                           [match rt with Some t => signature DEPTH t 2 | None => "void" end] ++
-                          match throwing with Some ts => "throws" :: map tref_name ts | None => [] end) in
+                          match throwing with Some ts => "throws" :: map (fun t => sanitize (tref_name t)) ts | None => [] end) in
     let! p := lift (position e c) in
     let! s := get_st in
     ret (mkfunc name p None params targets (s_ns s) rt throwing true).
